@@ -128,6 +128,24 @@ ROWS = {
     "C17b-1": ("C17", "coding.rs encode_fixed_size_frame casts the frame number to u32 before the range check", "frame numbers of 2^32 or more with bit 31 clear", "C17 quick: encode_fixed_size_frame(frame number)|invalid_argument_accepted", ""),
     "C17b-2": ("C17", "par.rs worker returns its buffer only when the frame encoded successfully", "at least 2*workers blocks with an out-of-width sample",
                "C06 quick: loom deadlock (scenario ..badsample@0+badsample@1)", "C17 quick probes a single bad block and does not see it; it is C06's failure class"),
+    # ---- round 3 (and second round for C07/C18/C19/C20)
+    "C05c-1": ("C05", "same mechanism as C04-2 (authored independently)", "as C04-2", "C05 quick breadth: mt_vs_st|streaminfo; C04 quick", ""),
+    "C05c-2": ("C05", "source.rs Context::fill_interleaved hashes a grow-only thread-local byte buffer", "single-thread / frame-level mode and a block shorter than an earlier block hashed on the same thread",
+               "C03 quick: md5 (conclusive, history dependent); C05 quick: loom bytes_differ / st_vs_framewise and breadth", ""),
+    "C06c-1": ("C06", "par.rs ParContext::request_stop skips the terminator when the last enqueued block was empty", "a read error at block 0 (or a source that ends without ever filling)",
+               "C06 quick: loom deadlock (scenario ..readerr@0)", ""),
+    "C06c-2": ("C06", "arrayutils.rs i32s_to_le_bytes asserts that every sample fits its byte container", "multi-thread mode and a sample outside the container width (32768 at 16 bits)",
+               "C06 quick: caller_panic", ""),
+    "C18c-1": ("C18", "verify.rs coefficient range check made symmetric (accepts +2^(precision-1))", "a coefficient exactly at the positive boundary",
+               "C18 quick (boundary coefficients added to the grid after reading the change): write_panic / parse_back_not_identical", ""),
+    "C18c-2": ("C18", "datatype.rs BlockSizeSpec::from_size rewritten arithmetically: 9216 and 18432 get colliding tags", "block size 9216 or 18432",
+               "C18 quick (both sizes added to the grid after reading the change): FrameHeader::new|parse_back_rejected; C02 quick (complete final-frame length space): malformed|frame.crc8", ""),
+    "C19c-1": ("C19", "config.rs experimental-only options skipped on serialisation in normal builds", "use_direct_mse = true or non-zero mae_optimization_steps", "C19 quick: roundtrip_differs", ""),
+    "C19c-2": ("C19", "config.rs Encoder::default() resolves FLACENC_WORKERS", "the variable set to a positive integer (the engines pin it to 2)", "C19 quick: omitted_field_default / roundtrip_differs", ""),
+    "C20c-1": ("C20", "bitrepr.rs utf8like_bytesize one bit short for exact powers of two", "exactly 129 or 2049 equally sized frames (single-thread sizes come from count_bits)",
+               "C04 quick: max_frame_size; C08 quick: count_mismatch; C20 quick (129- / 2049-frame cases added to the probe corpus after the first miss): feature_dependent", ""),
+    "C20c-2": ("C20", "par.rs feeder stops after the first block shorter than the block size", "a source that delivers in packets (short reads before the end)",
+               "C05 quick breadth (packet source, added after reading the change): mt_vs_st|packet_source; C20 quick (packet source case added after the first miss): feature_dependent", ""),
 }
 
 DROPPED = {
